@@ -100,6 +100,14 @@ from malt.lang.directives import set_loop_options as slo
 
 GS = 0
 
+import os as _os
+NULL = open(_os.devnull, 'w')      # print(..., file=NULL): arguments are evaluated, nothing reaches stdout
+
+class pdb(object):                 # call_trees recognises debugger entry calls by their *name*: a harmless stand-in
+  set_trace = staticmethod(lambda *args, **kwargs: None)
+
+ipdb = pdb
+
 def deco(*args):
   def wrap(fn):
     return fn
@@ -186,8 +194,26 @@ EXPR_CONTEXTS = [
     ('assert_test', ["assert ({E}) is not a, 'm'"]),
     ('assert_msg', ['assert a is not None, {E}']),
     ('del_index', ['del v[5 + (({E}) is None):]']),
-    ('with_item', ['with CM(t, ({E}) is None):', '  w = 4'], 'exempt_calls'),
-    ('with_item_2', ['with CM(t, 1), CM(t, ({E}) is None) as q_{N}:', '  w = 4'], 'exempt_calls'),
+    ('with_item', ['with CM(t, ({E}) is None):', '  w = 4'], 'exempt_calls', 'exempt_args'),
+    ('with_item_2', ['with CM(t, 1), CM(t, ({E}) is None) as q_{N}:', '  w = 4'], 'exempt_calls', 'exempt_args'),
+    ('with_item_kw', ['with CM(t, k=({E}) is None):', '  w = 4'], 'exempt_calls', 'exempt_args'),
+    ('with_item_elt', ['with [CM(t, 1), {E}][0]:', '  w = 4'], 'exempt_calls', 'exempt_args'),
+    ('with_item_target', ['with CM(t, 1) as v[(({E}) is None) + 0]:', '  w = 4'], 'exempt_calls', 'exempt_args'),
+    # arguments of the exempted call shapes: the exemption covers the call itself, never what its arguments contain
+    ('print_arg', ['print({E}, file=NULL)'], 'exempt_args'),
+    ('print_arg_2', ['print(1, {E}, 2, file=NULL)'], 'exempt_args'),
+    ('print_stararg', ['print(*[{E}], file=NULL)'], 'exempt_args'),
+    ('print_kw_end', ["print(1, end=['', {E}][0], file=NULL)"], 'exempt_args'),
+    ('print_kw_file', ['print(1, file=[NULL, {E}][0])'], 'exempt_args'),
+    ('print_dstararg', ["print(1, **{{'file': [NULL, {E}][0]}})"], 'exempt_args'),
+    ('print_in_lambda', ['w = (lambda q: print({E}, file=NULL))(1)'], 'exempt_args'),
+    ('print_in_comp', ['w = [print({E}, file=NULL) for q_ in range(2)]'], 'exempt_args'),
+    ('print_in_print', ['print(print({E}, file=NULL), file=NULL)'], 'exempt_args'),
+    ('pdb_arg', ['pdb.set_trace({E})'], 'exempt_args'),
+    ('pdb_kw', ['pdb.set_trace(header={E})'], 'exempt_args'),
+    ('ipdb_arg', ['w = ipdb.set_trace(1, {E})'], 'exempt_args'),
+    ('breakpoint_arg', ['breakpoint({E})'], 'exempt_args'),          # PYTHONBREAKPOINT=0: returns at once
+    ('breakpoint_kw', ['w = breakpoint(1, k={E})'], 'exempt_args'),
     ('with_body', ['with CM(t, 1):', '  w = {E}']),
     ('lambda_body', ['w = (lambda q: {E})(1)']),
     ('lambda_default', ['w = (lambda q={E}: q)()']),
@@ -312,6 +338,9 @@ def program_of(blocks):
 
 def planted_cases(seed, tier, include_d3=False):
   """Yields (label, flags, [block, ...]) cases; each block is one planting (list of lines).
+  include_d3: False = without the IfExp-inside-IfExp plantings, True = only those, 'all' = everything.
+  flags contains 'exempt_args' for plantings inside the arguments of an exempted call shape (print, debugger entry
+  calls, with-items): the callers run those first and under option sets with and without BUILTIN_FUNCTIONS.
 
   quick:    every (expression construct x expression context) pair, statement context rotating;
             every (statement construct x statement context) pair and every context pair around one rotating construct.
@@ -325,7 +354,7 @@ def planted_cases(seed, tier, include_d3=False):
     for ex in EXPR_CONTEXTS:
       flags = set(ex[2:])
       d3 = ec[0] in IFEXP_CONSTRUCTS and 'ifexp' in flags
-      if d3 != include_d3:
+      if include_d3 != 'all' and d3 != include_d3:
         continue
       if ec[0] == 'call_print' and ex[0] == 'call_func':
         continue      # print(end='') returns None: not callable
@@ -334,11 +363,16 @@ def planted_cases(seed, tier, include_d3=False):
       if 'nolambda' in flags and ec[0] == 'lambda':
         continue
       outer = sctxs if thorough else [sctxs[k % len(sctxs)], sctxs[0]][:1 + (k % 3 == 0)]
+      if 'exempt_args' in flags and not thorough:
+        # always once inside a loop body and once in a rotating other context
+        loops = [c for c in sctxs if 'loop' in c[3]]
+        other = [c for c in sctxs if 'loop' not in c[3]]
+        outer = [loops[k % len(loops)], other[k % len(other)]]
       k += 1
       for sc in outer:
         block = wrap_stmt_context(sc, plant_expr(ec, ex, counter), counter)
         yield ('%s@%s@%s' % (ec[0], ex[0], sc[0]), flags, block)
-  if include_d3:
+  if include_d3 is True:
     return
   for st in STMT_CONSTRUCTS:
     for c1 in sctxs:
